@@ -48,7 +48,7 @@ pub fn abstract_frag(case: &FragCase, ex: &FragExec, st: &mut RunStats) -> u64 {
     for (i, op) in case.ops.iter().enumerate() {
         let oc = match ex.ops.get(i) {
             Some(FragRes::WriteOk) => "ok",
-            Some(FragRes::WriteErr { .. }) => "rejected",
+            Some(FragRes::WriteErr { .. }) | Some(FragRes::WriteErrOther { .. }) => "rejected",
             Some(FragRes::Flushed(Some(_))) => "segment",
             Some(FragRes::Flushed(None)) => "none",
             Some(FragRes::Ready(true)) => "ready",
@@ -225,7 +225,7 @@ pub fn c05_eval_frag(case: &FragCase, st: &mut RunStats) -> Vec<Violation> {
     if !out.is_empty() || !ex.build.is_ok() {
         return out;
     }
-    let rejected: Vec<usize> = ex.ops.iter().enumerate().filter(|(_, o)| matches!(o, FragRes::WriteErr { .. })).map(|(i, _)| i).collect();
+    let rejected: Vec<usize> = ex.ops.iter().enumerate().filter(|(_, o)| matches!(o, FragRes::WriteErr { .. } | FragRes::WriteErrOther { .. })).map(|(i, _)| i).collect();
     if rejected.is_empty() {
         return out;
     }
@@ -306,6 +306,18 @@ pub fn c10_eval(case: &FragCase, st: &mut RunStats) -> Vec<Violation> {
                         }
                         if Some(*prev) != last_dts || *curr != *dts {
                             out.push(v("C10", "write-error-payload", "prev-curr", format!("op {}: rejection reports prev={} curr={} but previous accepted decode time is {:?} and the call's is {}", i, prev, curr, last_dts, dts)));
+                            return out;
+                        }
+                    }
+                    FragRes::WriteErrOther { debug, .. } => {
+                        // a rejection for another reason: legitimate exactly where C16 demands an error instead of a
+                        // wrapped field (composition offset outside i32, decode-time gap inside the pending fragment
+                        // outside u32); the "iff" of C10 and C16 conflict there, so neither answer is judged
+                        let cts = *pts as i128 - *dts as i128;
+                        let gap = queue.last().map(|q| *dts as i128 - q.dts as i128).unwrap_or(0);
+                        let field_overflow = cts > i32::MAX as i128 || cts < i32::MIN as i128 || gap > u32::MAX as i128;
+                        if !must_reject && !field_overflow {
+                            out.push(v("C10", "write-rejected", "non-decreasing-decode-time", format!("op {}: write with decode time {} (previous accepted {:?}) was rejected with {}", i, dts, last_dts, debug)));
                             return out;
                         }
                     }
